@@ -2,6 +2,7 @@ package model
 
 import (
 	"math"
+	"strconv"
 	"strings"
 
 	"verif/simkit"
@@ -509,6 +510,9 @@ func genJSONFloatLiteral(c *simkit.Choices) string {
 		}
 		return sb.String()
 	}
+	if c.N(3) == 0 {
+		return genScaledDecimal(c)
+	}
 	if c.N(3) > 0 {
 		return fixed[c.N(len(fixed))]
 	}
@@ -544,6 +548,87 @@ func genJSONFloatLiteral(c *simkit.Choices) string {
 		if c.Bool() {
 			sb.WriteByte(byte('0' + c.N(10)))
 		}
+	}
+	return sb.String()
+}
+
+// genScaledDecimal draws D x 10^k (D: 1-19 significant digits, k in [-45,45]
+// or near the ends of the float64 range) and writes it in one of the many
+// spellings JSON allows: positional with leading or trailing zeros, with the
+// point anywhere inside D, or with an exponent that moves the point. Fast paths
+// of decimal-to-binary conversion depend on the digit count and on the power of
+// ten, not on the value.
+func genScaledDecimal(c *simkit.Choices) string {
+	nd := 1 + c.N(19)
+	if c.Bool() {
+		nd = 1 + c.N(4)
+	}
+	d := make([]byte, nd)
+	for i := range d {
+		d[i] = byte('0' + c.N(10))
+	}
+	d[0] = byte('1' + c.N(9))
+	if nd > 1 && c.N(4) == 0 {
+		d[nd-1] = '0' // trailing zero inside the digits
+	}
+	k := c.N(91) - 45
+	switch c.N(8) {
+	case 0:
+		k = -330 + c.N(40)
+	case 1:
+		k = 280 + c.N(30)
+	case 2:
+		k = []int{-23, -22, 22, 23, -15, 15, 16, -16, -19, 19, -27, 27, -28}[c.N(13)]
+	}
+	if k+nd-1 > 307 {
+		k = 307 - (nd - 1) - c.N(3) // stays inside the float64 range: no overflow question
+	}
+	D := string(d)
+	var sb strings.Builder
+	if c.N(4) == 0 {
+		sb.WriteByte('-')
+	}
+	ei := c.N(2)
+	e := "eE"[ei : ei+1]
+	form := c.N(5)
+	if (k > 60 || k < -60) && form < 2 {
+		form = 2 + c.N(3)
+	}
+	switch form {
+	case 0: // positional
+		switch {
+		case k >= 0:
+			// (always with a fraction: a bare integer literal beyond 64 bits is another question)
+			sb.WriteString(D + strings.Repeat("0", k) + "." + strings.Repeat("0", 1+c.N(3)))
+		case -k < nd:
+			sb.WriteString(D[:nd+k] + "." + D[nd+k:])
+		default:
+			sb.WriteString("0." + strings.Repeat("0", -k-nd) + D)
+		}
+	case 1: // positional with needless trailing zeros in the fraction
+		switch {
+		case k >= 0:
+			sb.WriteString(D + strings.Repeat("0", k) + ".0")
+		case -k < nd:
+			sb.WriteString(D[:nd+k] + "." + D[nd+k:] + strings.Repeat("0", c.N(4)))
+		default:
+			sb.WriteString("0." + strings.Repeat("0", -k-nd) + D + strings.Repeat("0", c.N(4)))
+		}
+	case 2: // scientific, one digit before the point
+		sb.WriteString(D[:1])
+		if nd > 1 {
+			sb.WriteString("." + D[1:])
+		}
+		sb.WriteString(e + strconv.Itoa(k+nd-1))
+	case 3: // all digits, then the exponent
+		sb.WriteString(D + e)
+		if k >= 0 && c.Bool() {
+			sb.WriteByte('+')
+		}
+		sb.WriteString(strconv.Itoa(k))
+	default: // 0.000D with a compensating exponent
+		z := c.N(6)
+		sb.WriteString("0." + strings.Repeat("0", z) + D + e + strconv.Itoa(k+nd+z))
 	}
 	return sb.String()
 }
